@@ -69,6 +69,109 @@ fn n3_suite<K: BoolKind>(order: &[u32], threads: u32) -> Result<u64, String> {
     Ok(d)
 }
 
+
+/// Operations repeated on the SAME handles before and after variables are added (results that
+/// depend on the set of levels must not be served from state of the smaller manager).
+fn addvars_suite<K: BoolKind>(order: &[u32], threads: u32) -> Result<u64, String> {
+    use oxidd::{Manager, ManagerRef};
+    let mr = build::mk_manager::<K>(3, order, 1 << 14, 1 << 10, threads);
+    let vs = build::vars::<K>(&mr, 3);
+    let mut memo = Default::default();
+    let fns: Vec<K::F> = (0..256u64).map(|t| build::from_shannon::<K>(&mr, &vs, &TT::from_u64(3, t), &mut memo)).collect();
+    drop(memo);
+    // 27 literal cubes, kept alive across the additions
+    let mut cubes: Vec<(K::F, u8)> = vec![];
+    for code in 0..27u8 {
+        let mut acc = mr.with_manager_shared(|m| K::F::t(m));
+        for v in 0..3u32 {
+            match (code / 3u8.pow(v)) % 3 {
+                1 => acc = acc.and(&vs[v as usize]).map_err(|_| "oom")?,
+                2 => acc = acc.and(&vs[v as usize].not().map_err(|_| "oom")?).map_err(|_| "oom")?,
+                _ => {}
+            }
+        }
+        cubes.push((acc, code));
+    }
+    let mut d = 0u64;
+    let mut n = 3u32;
+    for phase in 0..3 {
+        // model of a handle created over 3 variables, read over n variables
+        let base = |t3: u8| -> TT {
+            TT::from_fn(n, |a| {
+                let low = (t3 >> (a & 7)) & 1 == 1;
+                if K::KIND == BKind::Zbdd { low && (a >> 3) == 0 } else { low }
+            })
+        };
+        let cube_table = |code: u8| -> u8 {
+            let mut t = 0u8;
+            for a in 0..8u8 {
+                let ok = (0..3).all(|v| match (code / 3u8.pow(v)) % 3 {
+                    1 => (a >> v) & 1 == 1,
+                    2 => (a >> v) & 1 == 0,
+                    _ => true,
+                });
+                if ok {
+                    t |= 1 << a;
+                }
+            }
+            t
+        };
+        for t in (0..256usize).step_by(if phase == 0 { 1 } else { 1 }) {
+            let bt = base(t as u8);
+            // not
+            let r = fns[t].not().map_err(|_| "oom")?;
+            let got = K::table(&r, n);
+            if got != bt.not() {
+                return Err(format!("addvars: not({t:02x}) with {n} variables (phase {phase}) = {got:?}, expected {:?}", bt.not()));
+            }
+            d = mix(d ^ r.node_count() as u64);
+            // restrict by the persistent cubes
+            for (cube, code) in cubes.iter().skip(t % 3).step_by(3) {
+                let ct = base(cube_table(*code));
+                let r = fns[t].restrict(cube).map_err(|_| "oom")?;
+                // literals implied by the cube (over n variables)
+                let mut exp = bt;
+                for v in 0..n {
+                    let (pos, neg) = (ct.and(&TT::var(n, v).not()).is_zero(), ct.and(&TT::var(n, v)).is_zero());
+                    if ct.is_zero() {
+                        break;
+                    }
+                    if pos {
+                        exp = exp.cof(v, true);
+                    } else if neg {
+                        exp = exp.cof(v, false);
+                    }
+                }
+                if ct.is_zero() {
+                    continue;
+                }
+                let got = K::table(&r, n);
+                if got != exp {
+                    return Err(format!("addvars: restrict({t:02x}, cube {code}) with {n} variables (phase {phase}) = {got:?}, expected {exp:?}"));
+                }
+                d = mix(d ^ (r.node_count() as u64) << 3);
+            }
+            // binary operators on persistent handles
+            let u = (t * 7 + 3) % 256;
+            let r = fns[t].xor(&fns[u]).map_err(|_| "oom")?;
+            if K::table(&r, n) != bt.xor(&base(u as u8)) {
+                return Err(format!("addvars: xor({t:02x},{u:02x}) with {n} variables (phase {phase}) is wrong"));
+            }
+            let r = fns[t].imp(&fns[u]).map_err(|_| "oom")?;
+            if K::table(&r, n) != bt.not().or(&base(u as u8)) {
+                return Err(format!("addvars: imp({t:02x},{u:02x}) with {n} variables (phase {phase}) is wrong"));
+            }
+            d = mix(d ^ (r.node_count() as u64) << 5);
+        }
+        if phase < 2 {
+            let k = 1 + phase as u32;
+            mr.with_manager_exclusive(|m| m.add_vars(k));
+            n += k;
+        }
+    }
+    Ok(d)
+}
+
 fn record<K: BoolKind>(out: &mut dyn Write, seed: u64, cases: u32, threads: &[u32]) {
     let checks = Checks { canon: true, structure: true, rc: true, node_count: true };
     for &th in threads {
@@ -81,7 +184,17 @@ fn record<K: BoolKind>(out: &mut dyn Write, seed: u64, cases: u32, threads: &[u3
             let _ = writeln!(out, "{}", json!({"case": format!("n3/{}/{:?}", K::NAME, order), "threads": th, "digest": v["d"], "err": v["err"]}));
         }
     }
-    let w = Weights { reorder: 8, gc: 8, ..Weights::default() };
+    for &th in threads {
+        for order in permutations(3) {
+            let res = isolated(120, |w| {
+                let r = addvars_suite::<K>(&order, th);
+                let _ = writeln!(w, "{}", json!({"d": r.as_ref().ok(), "err": r.as_ref().err()}));
+            });
+            let v: serde_json::Value = res.lines.iter().filter_map(|l| serde_json::from_str(l).ok()).find(|v: &serde_json::Value| v.get("d").is_some() || v.get("err").is_some()).unwrap_or(json!({"err": format!("crash: {:?}", res.end)}));
+            let _ = writeln!(out, "{}", json!({"case": format!("n3-addvars/{}/{:?}", K::NAME, order), "threads": th, "digest": v["d"], "err": v["err"]}));
+        }
+    }
+    let w = Weights { reorder: 8, gc: 8, add_vars: 6, repeat: 12, rebuild: 8, ..Weights::default() };
     let strat = case_strategy(w, 3, 8, 10..50, vec![1], vec![16, 4096]);
     let mut r = pt::runner(seed ^ K::NAME.len() as u64 * 7919 ^ K::NAME.as_bytes()[1] as u64, cases);
     for i in 0..cases {
@@ -102,7 +215,7 @@ fn record<K: BoolKind>(out: &mut dyn Write, seed: u64, cases: u32, threads: &[u3
 fn main() {
     let args: Vec<String> = std::env::args().collect();
     if args.len() < 5 {
-        eprintln!("usage: vrun20 <out file> <seed> <cases> <threads,threads,...>");
+        eprintln!("usage: vrun20 <out file> <seed> <cases> <threads,threads,...> [kind]");
         std::process::exit(2);
     }
     if std::env::var("OXIDD_STACK_SIZE").is_err() {
@@ -112,7 +225,14 @@ fn main() {
     let cases: u32 = args[3].parse().unwrap();
     let threads: Vec<u32> = args[4].split(',').map(|s| s.parse().unwrap()).collect();
     let mut f = std::fs::File::create(&args[1]).expect("create digest file");
-    record::<BddK>(&mut f, seed, cases, &threads);
-    record::<BcddK>(&mut f, seed, cases, &threads);
-    record::<ZbddK>(&mut f, seed, cases, &threads);
+    let only = args.get(5).map(|s| s.as_str());
+    if only.is_none() || only == Some("bdd") {
+        record::<BddK>(&mut f, seed, cases, &threads);
+    }
+    if only.is_none() || only == Some("bcdd") {
+        record::<BcddK>(&mut f, seed, cases, &threads);
+    }
+    if only.is_none() || only == Some("zbdd") {
+        record::<ZbddK>(&mut f, seed, cases, &threads);
+    }
 }
